@@ -544,4 +544,57 @@ def rule_default_subscriber(ctx):
 
 
 
-RULES = [('C01.a', rule_a), ('C01.b', rule_b), ('C01.c', rule_c), ('C01.d', rule_e), ('C01.e', rule_f), ('C01.f', rule_g), ('C06.e', rule_h), ('C06.a', rule_i), ('C01.g', rule_j), ('C01.h', rule_k), ('C01.i+C02.e+C17.c+C05.g+C01.j', rule_l), ('C05.a+C05.f+C03.b+C03.c+C03.f', rule_d), ('C01.m', rule_balancer), ('C01.n', rule_pumps), ('C11.c', rule_dead_responders_silenced), ('C01.o', rule_default_subscriber)]
+
+def rule_responder_setup(ctx):
+    """C01.p  A responder's publisher is connected to the wire: the set-up of the stream and channel responders (and of
+    the channel requester) builds a StreamSubscriber for its own stream id and socket, keeps it, and - when there is a
+    publisher - subscribes it to that publisher, exactly once, on every path."""
+    rep = ctx.report
+    repo = ctx.repo
+    n = 0
+    for q in ('rsocket.handlers.request_stream_responder:RequestStreamResponder',
+              'rsocket.handlers.request_cahnnel_responder:RequestChannelResponder',
+              'rsocket.handlers.request_channel_requester:RequestChannelRequester'):
+        k = repo.cls(q)
+        g = k.lookup('setup') if k is not None else None
+        if g is None:
+            raise AnalysisError('C01.p: %s.setup vanished' % q)
+        n += 1
+        ok, detail = True, ''
+        n_sub = 0
+        ps = [p for p in ctx.paths(g, k, inline_depth=2) if p.outcome == 'return']
+        for p in ps:
+            news = [e for e in p.events if e.kind == 'new' and e.data['cls'].name == 'StreamSubscriber']
+            if len(news) != 1:
+                ok, detail = False, '%d StreamSubscriber objects built' % len(news)
+                continue
+            args = [strip_epoch(a.term) for a in news[0].data.get('args', [])]
+            if args[:2] != [('attr', ('self',), 'stream_id'), ('attr', ('self',), 'socket')]:
+                ok, detail = False, 'the subscriber is not built for this handler\'s stream id and socket'
+                continue
+            obj = strip_epoch(news[0].data['value'].term)
+            kept = [e for e in p.events if e.kind == 'store' and e.data['target'][0] == 'attr' and
+                    strip_epoch(e.data['target'][1]) == ('self',) and strip_epoch(e.data['value'].term) == obj]
+            if not kept:
+                ok, detail = False, 'the subscriber is not kept on the handler'
+            subs = [e for e in p.events if e.kind == 'call' and e.data.get('name') == 'subscribe' and
+                    e.data.get('recv') is not None and strip_epoch(e.data['recv'].term)[0] == 'attr' and
+                    strip_epoch(e.data['recv'].term)[1] == ('self',)]
+            absent = [e for e in p.events if e.kind == 'cond' and strip_epoch(e.data['key'])[0] == 'isnone' and
+                      'publisher' in repr(strip_epoch(e.data['key'])) and e.data['value']]
+            if absent:
+                if subs:
+                    ok, detail = False, 'an absent publisher is subscribed'
+                continue
+            if len(subs) != 1 or [strip_epoch(a.term) for a in subs[0].data['args']] != [obj]:
+                ok, detail = False, 'the publisher is not subscribed once with the stream\'s subscriber'
+            else:
+                n_sub += 1
+        rep.add('C01.p', '%s.setup / the publisher is subscribed with this stream\'s subscriber' % k.name, g,
+                ok and n_sub > 0, detail or 'StreamSubscriber(self.stream_id, self.socket, ...) kept and handed to '
+                                            '<publisher>.subscribe on %d paths' % n_sub)
+    rep.require('C01.p', 'handler set-ups', n, 3)
+
+
+
+RULES = [('C01.a', rule_a), ('C01.b', rule_b), ('C01.c', rule_c), ('C01.d', rule_e), ('C01.e', rule_f), ('C01.f', rule_g), ('C06.e', rule_h), ('C06.a', rule_i), ('C01.g', rule_j), ('C01.h', rule_k), ('C01.i+C02.e+C17.c+C05.g+C01.j', rule_l), ('C05.a+C05.f+C03.b+C03.c+C03.f', rule_d), ('C01.m', rule_balancer), ('C01.n', rule_pumps), ('C11.c', rule_dead_responders_silenced), ('C01.o', rule_default_subscriber), ('C01.p', rule_responder_setup)]
